@@ -26,7 +26,8 @@ def main():
     res = {"property": pid, "label": label, "repo_head": sh("git -C /repo rev-parse --short HEAD", "/")[1].strip()}
     try:
         place = (meta.get("demo_place", "") or "").split()[0] if meta.get("demo_place") else ""
-        cmd = meta.get("demo_cmd", "")
+        import re
+        cmd = re.sub(r"\s{2,}\(.*\)\s*$", "", meta.get("demo_cmd", ""))   # a trailing remark in parentheses is not part of the command
 
         def put_demo():
             for f in demo_files:
